@@ -302,6 +302,49 @@ fn long_spellings(x: f64) -> Vec<String> {
     out
 }
 
+/// Spellings of about the precision of a double: x rounded to 14..=18 significant digits, with
+/// the last digit as it is, one lower and one higher, each in exponent notation and (where the
+/// magnitude allows) written out positionally, both signs. These are the spellings on which
+/// "looks canonical already" shortcuts go wrong: 16 or 17 digits that are *not* the shortest
+/// digits of the double they round to.
+fn medium_spellings(x: f64) -> Vec<String> {
+    let mut out = Vec::new();
+    if x == 0.0 || !x.is_finite() {
+        return out;
+    }
+    for p in 14..=18usize {
+        let sci = format!("{:.*e}", p - 1, x.abs());
+        let (mant, exp) = sci.split_once('e').unwrap();
+        let exp: i32 = exp.parse().unwrap();
+        let digits: String = mant.chars().filter(|c| c.is_ascii_digit()).collect();
+        let n: u128 = digits.parse().unwrap();
+        for delta in [-1i128, 0, 1] {
+            let m = n as i128 + delta;
+            if m <= 0 {
+                continue;
+            }
+            let d = m.to_string();
+            // value = 0.d x 10^(exp + 1 + (d.len() - p)): a carry lengthens d, a borrow shortens it
+            let e10 = exp + (d.len() as i32 - p as i32);
+            let exp_form = if d.len() > 1 { format!("{}.{}e{}", &d[..1], &d[1..], e10) } else { format!("{d}e{e10}") };
+            out.push(exp_form);
+            if (-7..=21).contains(&e10) {
+                let point = e10 + 1; // number of digits before the point
+                let pos = if point <= 0 {
+                    format!("0.{}{}", "0".repeat((-point) as usize), d)
+                } else if (point as usize) >= d.len() {
+                    format!("{}{}", d, "0".repeat(point as usize - d.len()))
+                } else {
+                    format!("{}.{}", &d[..point as usize], &d[point as usize..])
+                };
+                out.push(format!("-{pos}"));
+                out.push(pos);
+            }
+        }
+    }
+    out
+}
+
 fn structured_doubles(tier: Tier) -> Vec<f64> {
     let mut v = Vec::new();
     let step = 1;
@@ -408,6 +451,11 @@ fn numbers_family(rep: &mut Report, tier: Tier) {
             // and the shortest spelling with an upper-case exponent and a plus sign
             let short = format!("{:E}", x);
             number_case(&short, t);
+            for s in medium_spellings(x) {
+                number_case(&s, t);
+                t.nontrivial(&s);
+                t.outcome("number:14..18 significant digits, last digit -1/0/+1");
+            }
         }
     });
     rep.absorb(t);
@@ -641,6 +689,45 @@ fn respellings(s: &str) -> Vec<String> {
 }
 
 fn c10_documents(rep: &mut Report, tier: Tier) {
+    // spellings of about the precision of a double: all of those that denote the same double
+    // (std's correctly rounded parser decides) must canonicalise identically
+    {
+        let doubles = structured_doubles(tier);
+        let nd = doubles.len();
+        let t = explore::par_tally(doubles.chunks(64).map(|c| c.to_vec()).collect(), |chunk, t| {
+            for x in chunk {
+                let mut classes: std::collections::HashMap<u64, (String, String)> = std::collections::HashMap::new();
+                for sp in medium_spellings(x) {
+                    let y: f64 = match sp.parse() {
+                        Ok(y) => y,
+                        Err(_) => continue,
+                    };
+                    if !y.is_finite() {
+                        continue;
+                    }
+                    let doc = format!("[{sp}]");
+                    t.evals += 1;
+                    match canon_doc(&doc) {
+                        Ok(c) => match classes.get(&y.to_bits()) {
+                            None => {
+                                classes.insert(y.to_bits(), (sp.clone(), c));
+                            }
+                            Some((first, cf)) => {
+                                if *cf != c {
+                                    t.violation("", format!("numerically equal spellings {first} and {sp} canonicalise differently: {cf} vs {c}"), json!({"kind": "canon-doc", "doc": doc, "other": format!("[{first}]")}));
+                                }
+                            }
+                        },
+                        Err(e) => t.violation("", e, json!({"kind": "canon-doc", "doc": doc, "other": doc})),
+                    }
+                }
+                t.nontrivial(&x.to_bits());
+            }
+            t.outcome("number:medium-precision spellings of one double");
+        });
+        rep.bounds["medium_spellings"] = json!({"doubles": nd, "significant_digits": [14, 18], "last_digit": [-1, 0, 1], "notations": ["exponent", "positional", "negative positional"]});
+        rep.absorb(t);
+    }
     // number respellings: all spellings of the class must canonicalise identically
     let l = tier.pick(6, 7);
     let mut bases = spellings("01259-.eE+", l);
